@@ -11,7 +11,59 @@ every write to resultBuf must be one of the bounded forms.
 """
 import os, re, subprocess, json
 from .core import CheckError, hexs
-from .translate import strip_comments, func_body, c_unescape, emit, write_sidecars, STR, defines, reachable_body
+from .translate import strip_comments, func_body, c_unescape, emit, write_sidecars, STR, defines, reachable_body, resolve_locals
+
+
+_base_func_body = func_body
+
+
+def func_body(src, name):
+    """Body of the DEFINITION of `name`: the parenthesised parameter list (balanced) must be followed directly by '{', and the name must be
+    preceded by a type token (not by '(', '=', '!', ',' or a keyword), so that a call inside a condition is not mistaken for it."""
+    for m in re.finditer(r"\b" + re.escape(name) + r"\s*\(", src):
+        i, depth = m.end(), 1
+        while i < len(src) and depth:
+            depth += {"(": 1, ")": -1}.get(src[i], 0)
+            i += 1
+        k = i
+        while k < len(src) and src[k] in " \t\r\n":
+            k += 1
+        if k >= len(src) or src[k] != "{":
+            continue
+        before = src[:m.start()].rstrip()
+        if not before or not (before[-1].isalnum() or before[-1] in "_*") or re.search(r"\b(return|if|while|else|case)\s*$", before):
+            continue
+        j, depth = k + 1, 1
+        while j < len(src) and depth:
+            if src[j] == "{":
+                depth += 1
+            elif src[j] == "}":
+                depth -= 1
+            elif src[j] == '"':
+                j += 1
+                while j < len(src) and src[j] != '"':
+                    j += 2 if src[j] == "\\" else 1
+            j += 1
+        return src[k + 1:j - 1]
+    return None
+
+
+def _reach(src, fn, depth=2):
+    """func_body(fn) + bodies of the file-local static functions it calls (definition finder above)"""
+    body = func_body(src, fn) or ""
+    seen, todo, out = {fn}, [(body, 0)], [body]
+    statics = set(re.findall(r"^\s*static\s+[\w\s\*]+?\b(\w+)\s*\(", src, re.M))
+    while todo:
+        b, d = todo.pop()
+        if d >= depth:
+            continue
+        for nm in statics:
+            if nm not in seen and re.search(r"\b%s\s*\(" % re.escape(nm), b):
+                seen.add(nm)
+                hb = func_body(src, nm) or ""
+                out.append(hb)
+                todo.append((hb, d + 1))
+    return "\n".join(out)
 
 
 def _eval_many(run, items, includes=("limits.h", "stddef.h", "sys/un.h", "snoopy.h"), extra_defs=""):
@@ -83,7 +135,9 @@ def tr_safety(run):
     if not re.search(r"dataSourceMsg\s*=\s*malloc\s*\(\s*dataSourceMsgBufSize\s*\)", body):
         v["s_ds_buf_adj"] = None
     ev.append(("s_ds_arg_max", _arr(body, "dataSourceArg")))
-    v["s_ds_pre_nul"] = bool(re.search(r"dataSourceMsg\s*\[\s*0\s*\]\s*=\s*'\\0'\s*;\s*retVal\s*=\s*snoopy_datasourceregistry_callByName\s*\(\s*dataSourceNamePtr\s*,\s*dataSourceMsg\s*,\s*dataSourceMsgBufSize\s*,", body))
+    rbody = _reach(msg, "snoopy_message_generateFromFormat")
+    v["s_ds_pre_nul"] = bool(re.search(r"dataSourceMsg\s*\[\s*0\s*\]\s*=\s*'\\0'\s*;\s*\w+\s*=\s*snoopy_datasourceregistry_callByName\s*\(\s*\w+\s*,\s*dataSourceMsg\s*,\s*dataSourceMsgBufSize\s*,", rbody)
+                             and len(re.findall(r"snoopy_datasourceregistry_callByName\s*\(", rbody)) == 1)
     m = re.search(r"strndup\s*\(\s*fmtPos_nextFormatTag\s*\+\s*(\d+)\s*,\s*\(size_t\)\s*\(\s*fmtPos_nextFormatTagClose\s*-\s*\(\s*fmtPos_nextFormatTag\s*\+\s*(\d+)\s*\)\s*\)\s*\)", body)
     v["s_tag_skip"] = int(m.group(1)) if m and m.group(1) == m.group(2) else None
     m = re.search(r"fmtPos_cur\s*=\s*fmtPos_nextFormatTagClose\s*\+\s*(\d+)\s*;", body)
@@ -92,9 +146,10 @@ def tr_safety(run):
         notes.append("translator(safety): message.c no longer strndup()s the literal / tag")
         v["s_tag_skip"] = None
     act = strip_comments(run.src("src/action/log-syscall-exec.c"))
-    m = re.search(r"logMessage\s*=\s*malloc\s*\(\s*CFG->log_message_max_length\s*\+\s*(\d+)\s*\)", act)
+    act = resolve_locals(act)        # a size hoisted into a local (logMessageBufSize = CFG->log_message_max_length + 1) is substituted back
+    m = re.search(r"logMessage\s*=\s*malloc\s*\(\s*\(?\s*CFG->log_message_max_length\s*\+\s*(\d+)\s*\)?\s*\)", act)
     v["s_log_malloc_adj"] = int(m.group(1)) if m else None
-    m = re.search(r"snoopy_message_generateFromFormat\s*\(\s*logMessage\s*,\s*CFG->log_message_max_length\s*\+\s*(\d+)\s*,\s*CFG->datasource_message_max_length\s*\+\s*(\d+)\s*,", act)
+    m = re.search(r"snoopy_message_generateFromFormat\s*\(\s*logMessage\s*,\s*\(?\s*CFG->log_message_max_length\s*\+\s*(\d+)\s*\)?\s*,\s*\(?\s*CFG->datasource_message_max_length\s*\+\s*(\d+)\s*\)?\s*,", act)
     v["s_log_size_adj"] = int(m.group(1)) if m else None
     v["s_ds_size_adj"] = int(m.group(2)) if m else None
     for k, ex in [("s_hardmin_log", "SNOOPY_LOG_MESSAGE_MAX_LENGTH_HARDMIN"), ("s_hardmax_log", "SNOOPY_LOG_MESSAGE_MAX_LENGTH_HARDMAX"),
@@ -140,8 +195,10 @@ def tr_safety(run):
                 and re.search(r"\*\s*argListParsed\s*=\s*" + lst + r"\s*;", cb)
                 # the slot writes: [0], [<idx>] inside the comma loop, [<idx>] for the end marker; <idx> is only set to 0/1 and incremented in the loop
                 and re.search(r"\b" + lst + r"\s*\[\s*0\s*\]\s*=\s*argListRaw\s*;", cb)
-                and re.search(r"while\s*\(\s*NULL\s*!=\s*\(\s*(\w+)\s*=\s*strchr\s*\(\s*(\w+)\s*,\s*','\s*\)\s*\)\s*\)\s*\{\s*\*\s*\1\s*=\s*'\\0'\s*;\s*\2\s*=\s*\1\s*\+\s*1\s*;\s*"
-                              + lst + r"\s*\[\s*(\w+)\s*\]\s*=\s*\2\s*;\s*\3\s*\+\+\s*;\s*\}", cb))
+                and (re.search(r"while\s*\(\s*NULL\s*!=\s*\(\s*(\w+)\s*=\s*strchr\s*\(\s*(\w+)\s*,\s*','\s*\)\s*\)\s*\)\s*\{\s*\*\s*\1\s*=\s*'\\0'\s*;\s*\2\s*=\s*\1\s*\+\s*1\s*;\s*"
+                              + lst + r"\s*\[\s*(\w+)\s*\]\s*=\s*\2\s*;\s*\3\s*\+\+\s*;\s*\}", cb)
+                     or re.search(r"(\w+)\s*=\s*strchr\s*\(\s*argListRaw\s*,\s*','\s*\)\s*;\s*while\s*\(\s*NULL\s*!=\s*\1\s*\)\s*\{\s*\*\s*\1\s*=\s*'\\0'\s*;\s*"
+                                  + lst + r"\s*\[\s*(\w+)\s*\]\s*=\s*\1\s*\+\s*1\s*;\s*\2\s*\+\+\s*;\s*\1\s*=\s*strchr\s*\(\s*\1\s*\+\s*1\s*,\s*','\s*\)\s*;\s*\}", cb)))
         if ok_c:
             v["s_csv_extra_slots"] = int(m.group(3))
     if v["s_csv_extra_slots"] is None:
@@ -216,7 +273,7 @@ def tr_safety(run):
         notes.append("translator(safety): syslog_value_cleanup not recognised")
         v["s_cfg_guarded"] = None
     ob = func_body(cf, "snoopy_configfile_parseValue_output") or ""
-    v["s_out_split_strchr"] = bool(re.search(r"colonPtr\s*=\s*strchr\s*\(\s*confVal\s*,\s*':'\s*\)", ob) and re.search(r"\*colonPtr\s*=\s*'\\0'\s*;\s*outputName\s*=\s*confVal\s*;\s*outputArg\s*=\s*colonPtr\s*\+\s*1\s*;", ob)
+    v["s_out_split_strchr"] = bool(re.search(r"colonPtr\s*=\s*strchr\s*\(\s*confVal\s*,\s*':'\s*\)", ob) and re.search(r"\*colonPtr\s*=\s*'\\0'\s*;\s*(?:outputName\s*=\s*confVal\s*;\s*)?outputArg\s*=\s*colonPtr\s*\+\s*1\s*;", ob)
                                    and re.search(r"confVal\s*=\s*strdup\s*\(\s*confValString\s*\)", ob) and "strtok_r" not in ob)
 
     # ---------------------------------------------------------------- ini.c as compiled
@@ -260,7 +317,7 @@ def tr_safety(run):
     # ---------------------------------------------------------------- env_all.c
     ea = strip_comments(run.src("src/datasource/env_all.c"))
     eb = func_body(ea, "snoopy_datasource_env_all") or ""
-    m = re.search(r"\(\s*i\s*>\s*1\s*\)\s*&&\s*\(\s*remResultSize\s*>=\s*(\d+)\s*\)", eb)
+    m = re.search(r"if\s*\(\s*\(\s*(?:i\s*>\s*1|\w+\s*!=\s*environ|\w+\s*>\s*environ|0\s*!=\s*resultSize|resultSize\s*>\s*0)\s*\)\s*&&\s*\(\s*remResultSize\s*>=\s*(\d+)\s*\)", eb)
     v["s_env_comma_min"] = int(m.group(1)) if m else None
     m = re.search(r"if\s*\(\s*\(\s*strlen\s*\(\s*envItem\s*\)\s*\+\s*(\d+)\s*\+\s*(\d+)\s*\)\s*<\s*remResultSize\s*\)", eb)
     v["s_env_whole_slack"] = (int(m.group(1)) + int(m.group(2))) if m else None
@@ -304,24 +361,32 @@ def tr_safety(run):
     db = func_body(dt, "snoopy_datasource_datetime") or ""
     ddefs = _local_defs(run.src("src/datasource/datetime.h"))
     m = re.search(r"strftime\s*\(\s*timeBuffer\s*,\s*([^,]+),", db)
-    dr = _eval_many(run, [("s_dt_cap", _arr(db, "timeBuffer")), ("s_dt_size", m.group(1) if m else None)], extra_defs=ddefs)
+    # every strftime-like call on timeBuffer (the thread-safe build goes through snoopy_tsrm_strftime) must pass the same limit
+    sizes = re.findall(r"strftime\s*\(\s*timeBuffer\s*,\s*([^,]+),", db)
+    if _arr(db, "timeBuffer"):
+        sizes = [re.sub(r"sizeof\s*\(\s*timeBuffer\s*\)|sizeof\s+timeBuffer\b", "(" + _arr(db, "timeBuffer") + ")", x) for x in sizes]     # sizeof of the local array = its declared size
+    dr = _eval_many(run, [("s_dt_cap", _arr(db, "timeBuffer"))] + [("s_dt_size%d" % i, x) for i, x in enumerate(sizes)], extra_defs=ddefs)
+    vals = set(dr.get("s_dt_size%d" % i) for i in range(len(sizes)))
+    dr["s_dt_size"] = vals.pop() if len(vals) == 1 else None
     v["s_dt_cap"], v["s_dt_size"] = dr.get("s_dt_cap"), dr.get("s_dt_size")
     if not re.search(r"return\s+snprintf\s*\(\s*resultBuf\s*,\s*resultBufSize\s*,\s*\"%s\"\s*,\s*timeBuffer\s*\)", db):
         v["s_dt_size"] = None
 
     # ---------------------------------------------------------------- exclude_spawns_of.c
     es = strip_comments(run.src("src/filter/exclude_spawns_of.c"))
-    fa = reachable_body(es, "find_ancestor_in_list")        # the read block may have been moved into a file-local helper
+    fa = _reach(es, "find_ancestor_in_list")        # the read block may have been moved into a file-local helper
     edefs = _local_defs(es)
     m1 = re.search(r"fread\s*\(\s*st_buf\s*,\s*1\s*,\s*([^,]+),\s*statf\s*\)", fa)
     m2 = re.search(r"len\s*>=\s*([A-Za-z_0-9]+)\s*\)", fa)
-    m3 = re.search(r"if\s*\(\s*rc\s*<\s*([A-Za-z_0-9]+)\s*\)", fa)
+    mrc = re.search(r"(\w+)\s*=\s*\(int\)\s*fread\s*\(\s*st_buf\s*,", fa)
+    rcv = mrc.group(1) if mrc else "rc"
+    m3 = re.search(r"if\s*\(\s*" + rcv + r"\s*<\s*([A-Za-z_0-9]+)\s*\)", fa)
     m4 = re.search(r"snprintf\s*\(\s*stat_path\s*,\s*([^,]+),", fa)
     sev = [("s_st_buf", _arr(fa, "st_buf")), ("s_st_fread_n", m1.group(1) if m1 else None), ("s_st_comm", _arr(fa, "st_comm_buf")),
            ("s_st_comm_limit", m2.group(1) if m2 else None), ("s_st_size_min", m3.group(1) if m3 else None), ("s_st_path_arr", _arr(fa, "stat_path")),
            ("s_st_path", m4.group(1) if m4 else None)]
     sr = _eval_many(run, sev, extra_defs=edefs)
-    ok_s = (re.search(r"st_buf\s*\[\s*rc\s*\]\s*=\s*'\\0'", fa) and re.search(r"len\s*=\s*right\s*-\s*left\s*-\s*1\s*;", fa)
+    ok_s = (re.search(r"st_buf\s*\[\s*" + rcv + r"\s*\]\s*=\s*'\\0'", fa) and re.search(r"len\s*=\s*right\s*-\s*left\s*-\s*1\s*;", fa)
             and re.search(r"memcpy\s*\(\s*st_comm_buf\s*,\s*left\s*\+\s*1\s*,\s*len\s*\)\s*;\s*st_comm_buf\s*\[\s*len\s*\]\s*=\s*'\\0'", fa)
             and re.search(r"if\s*\(\s*(?:len\s*<=\s*0|right\s*<\s*left)\s*\|\|\s*len\s*>=", fa))
     v["s_st_empty_ok"] = bool(re.search(r"if\s*\(\s*right\s*<\s*left\s*\|\|\s*len\s*>=", fa))
